@@ -660,6 +660,16 @@ fn split_single_if(l: &str) -> Option<(String, String, Option<String>)> {
     Some((cond, t, e))
 }
 
+/// a label line (`Name:`) anywhere below
+fn holds_label(b: &[Node]) -> bool {
+    b.iter().any(|n| match n {
+        Node::Line(l) => l.ends_with(':') && words(l).len() == 1 && !l.starts_with('\''),
+        Node::If { arms, els, .. } => arms.iter().any(|(_, x)| holds_label(x)) || els.as_ref().map(|e| holds_label(e)).unwrap_or(false),
+        Node::For { body, .. } | Node::While { body, .. } | Node::Do { body, .. } => holds_label(body),
+        Node::Select { cases, els, .. } => cases.iter().any(|(_, x)| holds_label(x)) || els.as_ref().map(|e| holds_label(e)).unwrap_or(false),
+    })
+}
+
 fn collect_sites(nodes: &[Node], within: &'static str, info: &Info, c: &mut Counters, out: &mut Vec<Site>) {
     for n in nodes {
         let me = c.node;
@@ -695,6 +705,9 @@ fn collect_sites(nodes: &[Node], within: &'static str, info: &Info, c: &mut Coun
                         StepInfo::Lit(s) if *s > 0 => Some("const-positive-step"),
                         StepInfo::Lit(s) if *s < 0 => Some("const-negative-step"),
                         StepInfo::Lit(_) => None,
+                        // the WHILE spelling of a computed step holds the body twice (one copy per direction): a body
+                        // with a label in it cannot be written twice, so there is no such spelling of this loop
+                        StepInfo::Dyn(Some(_)) if holds_label(body) => None,
                         StepInfo::Dyn(Some(_)) => Some("computed-step"),
                         StepInfo::Dyn(None) => None,
                     };
@@ -1205,6 +1218,222 @@ fn header_call_programs(rng: &mut Rng, thorough: bool) -> Vec<Prog> {
     out
 }
 
+// ---------------------------------------------------------------------------------------------
+// directed family `loop-labels` (after the wave-10 seed `label_resolver resolves a jump to the CLOSEST definition of a
+// label`, which the check missed: no respelled program had a user label inside a FOR body): FOR loops whose body
+// holds user labels and jumps, so that FOR without STEP / FOR ... STEP 1 / the WHILE spelling (and STEP 2, a LONG
+// counter, a computed positive step, STEP -1 and their WHILE spellings) are compared on them. A FOR ... STEP body is
+// emitted twice, so a label in it is defined twice, and which definition a jump gets depends on instruction
+// distances: the number of statements between the jump and the label runs over 1..12.
+// A label inside the body of a DOWNWARD loop is the recorded finding C05-a on the unchanged tree (it resolves to the
+// upward copy): downward loops are in the family only with their labels outside the body (GOTO out, GOSUB).
+
+const LL_KINDS: [&str; 7] =
+    ["continue", "skip-part", "backward", "goto-out", "gosub-routine", "continue+gosub", "continue-from-inner"];
+const LL_HEADS: [&str; 6] = ["no-step", "step-1", "step-2", "step-long", "computed-step", "step-neg1"];
+const LL_NESTS: [&str; 6] = ["plain", "in-if", "in-select", "jump-from-if", "in-outer-for", "in-while"];
+
+fn ll_valid(kind: usize, head: usize) -> bool {
+    // downward loop: only the kinds whose label lies outside the body
+    head != 5 || kind == 3 || kind == 4
+}
+
+/// one body statement; every flavour leaves a trace in the output
+fn ll_stmt(j: usize, flavour: u64, v: &str) -> String {
+    match flavour % 6 {
+        0 => format!("PRINT \"s{}\"; {}", j, v),
+        1 => format!("T% = T% + {} + {}", v, j),
+        2 => format!("PRINT \"t{}\"; T%; {} * 2", j, v),
+        3 => format!("IF {} > 1 THEN PRINT \"g{}\";", v, j),
+        4 => format!("A$ = A$ + \"{}\"", (b'a' + (j % 26) as u8) as char),
+        _ => format!("PRINT \"u{}\", {} + T%", j, v),
+    }
+}
+
+fn loop_label_program(kind: usize, head: usize, nest: usize, n: usize, pre: usize, rng: &mut Rng) -> String {
+    let v = if head == 3 { "I&" } else { "I%" };
+    // (header, a value in the middle of the range, the first value)
+    let (header, mid, first) = match head {
+        0 => (format!("FOR {} = 1 TO 5", v), 3, 1),
+        1 => (format!("FOR {} = 1 TO 5 STEP 1", v), 3, 1),
+        2 => (format!("FOR {} = 1 TO 9 STEP 2", v), 5, 1),
+        3 => (format!("FOR {} = 2 TO 11 STEP 3", v), 5, 2),
+        4 => (format!("FOR {} = 1 TO 9 STEP S%", v), 5, 1),
+        _ => (format!("FOR {} = 5 TO 1 STEP -1", v), 3, 5),
+    };
+    let cond = match rng.below(4) {
+        0 => format!("{} = {}", v, mid),
+        1 => format!("{} >= {}", v, mid),
+        2 => format!("{} MOD 3 = 0", v),
+        _ => format!("{} <> {}", v, first),
+    };
+    let stmts = |from: usize, count: usize, rng: &mut Rng| -> Vec<String> {
+        (0..count).map(|j| ll_stmt(from + j, rng.below(6), v)).collect()
+    };
+    // the jump: a single-line IF, or (jump-from-if) a block IF holding it
+    let jump = |what: &str, cond: &str| -> Vec<String> {
+        if nest == 3 {
+            vec![format!("IF {} THEN", cond), format!("  PRINT \"j\"; {}", v), format!("  {}", what), "END IF".into()]
+        } else {
+            vec![format!("IF {} THEN {}", cond, what)]
+        }
+    };
+    let mut core: Vec<String> = stmts(90, pre, rng);
+    let mut after: Vec<String> = vec![];
+    let mut routines: Vec<String> = vec![];
+    match kind {
+        0 | 5 => {
+            core.extend(jump("GOTO Lc", &cond));
+            let mut b = stmts(0, n, rng);
+            if kind == 5 {
+                let at = rng.below(b.len() as u64 + 1) as usize;
+                b.insert(at, "GOSUB Rt".into());
+                routines.extend(["Rt:".to_owned(), format!("PRINT \"r\"; {}", v), "T% = T% + 1".into(), "RETURN".into()]);
+            }
+            core.extend(b);
+            core.push("Lc:".into());
+        }
+        1 => {
+            core.extend(jump("GOTO Lm", &cond));
+            core.extend(stmts(0, n, rng));
+            core.push("Lm:".into());
+            core.push(format!("PRINT \"m\"; {}", v));
+            core.extend(stmts(40, 1 + rng.below(2) as usize, rng));
+        }
+        2 => {
+            core.push("K% = 0".into());
+            core.push("Lb:".into());
+            core.push("K% = K% + 1".into());
+            core.push(format!("PRINT \"b\"; {}; K%", v));
+            core.extend(stmts(0, n, rng));
+            core.extend(jump("GOTO Lb", &format!("K% < 2 AND ({})", cond)));
+            core.push(format!("PRINT \"e\"; {}", v));
+        }
+        3 => {
+            core.extend(jump("GOTO Lo", &format!("{} = {}", v, mid)));
+            core.extend(stmts(0, n, rng));
+            after.push("PRINT \"ran to the end\"".into());
+            after.push("Lo:".into());
+            after.push(format!("PRINT \"out\"; {}", v));
+            after.push("FOR J% = 1 TO 2".into());
+            after.push("  PRINT \"j\"; J%;".into());
+            after.push("NEXT".into());
+        }
+        4 => {
+            core.extend(jump("GOSUB Rt", &cond));
+            core.extend(stmts(0, 1 + rng.below(3) as usize, rng));
+            routines.push("Rt:".into());
+            routines.extend(stmts(20, n, rng));
+            routines.push("RETURN".into());
+        }
+        _ => {
+            core.push("FOR J% = 1 TO 3".into());
+            core.push(format!("  IF J% = 2 AND ({}) THEN GOTO Lc", cond));
+            core.push(format!("  PRINT \"j\"; J%; {}", v));
+            core.push("NEXT".into());
+            core.extend(stmts(0, n, rng));
+            core.push("Lc:".into());
+        }
+    }
+    // nesting of the body: the jump and the label inside an IF / a CASE block of the FOR body
+    let ind = |ls: Vec<String>| -> Vec<String> { ls.into_iter().map(|l| if l.ends_with(':') { l } else { format!("  {}", l) }).collect() };
+    let body: Vec<String> = match nest {
+        1 => {
+            let mut b = vec![format!("IF {} > 0 THEN", v)];
+            b.extend(ind(core));
+            if kind != 3 && kind != 4 {
+                b.push(format!("  PRINT \"i\"; {}", v));
+            }
+            b.push("END IF".into());
+            b
+        }
+        2 => {
+            let mut b = vec!["SELECT CASE 1".to_owned(), "CASE 1".into()];
+            b.extend(ind(core));
+            b.push(format!("  PRINT \"c\"; {}", v));
+            b.push("CASE ELSE".into());
+            b.push("  PRINT \"never\"".into());
+            b.push("END SELECT".into());
+            b
+        }
+        _ => core,
+    };
+    let mut the_loop = vec![header];
+    the_loop.extend(ind(body));
+    the_loop.push("NEXT".into());
+    the_loop.extend(after);
+    let mut out: Vec<String> = vec!["T% = 0".into(), "A$ = \"\"".into()];
+    if head == 4 {
+        out.push("S% = 2".into());
+    }
+    match nest {
+        4 => {
+            out.push("FOR O% = 1 TO 2".into());
+            out.push("  PRINT \"o\"; O%".into());
+            out.extend(ind(the_loop));
+            out.push("NEXT".into());
+        }
+        5 => {
+            out.push("W% = 0".into());
+            out.push("WHILE W% < 2".into());
+            out.push("  W% = W% + 1".into());
+            out.extend(ind(the_loop));
+            out.push("WEND".into());
+        }
+        _ => out.extend(the_loop),
+    }
+    out.push(format!("PRINT \"end\"; {}; T%; K%; A$", v));
+    if !routines.is_empty() {
+        out.push("END".into());
+        out.extend(routines);
+    }
+    out.join("\n") + "\n"
+}
+
+/// quick: the forward jumps (continue, skip-part) in the three upward spellings with every distance 1..12, plus a random
+/// sample of the rest; thorough: kind x header x nesting x distance (statements in front of the jump drawn at random)
+fn loop_label_programs(rng: &mut Rng, thorough: bool) -> Vec<(Prog, String)> {
+    let mut out = vec![];
+    let mut push = |k: usize, h: usize, ne: usize, n: usize, pre: usize, rng: &mut Rng| {
+        let text = loop_label_program(k, h, ne, n, pre, rng);
+        out.push((Prog { text, origin: "loop-labels", core: false, hc: None }, format!("{}|{}|{}", LL_KINDS[k], LL_HEADS[h], LL_NESTS[ne])));
+    };
+    if thorough {
+        for k in 0..LL_KINDS.len() {
+            for h in 0..LL_HEADS.len() {
+                for ne in 0..LL_NESTS.len() {
+                    for n in 1..=12 {
+                        if ll_valid(k, h) {
+                            let pre = rng.below(3) as usize;
+                            push(k, h, ne, n, pre, rng);
+                        }
+                    }
+                }
+            }
+        }
+    } else {
+        for k in 0..2 {
+            for h in 0..3 {
+                for n in 1..=12 {
+                    let pre = rng.below(3) as usize;
+                    push(k, h, 0, n, pre, rng);
+                }
+            }
+        }
+        let mut left = 230;
+        while left > 0 {
+            let (k, h) = (rng.below(LL_KINDS.len() as u64) as usize, rng.below(LL_HEADS.len() as u64) as usize);
+            if !ll_valid(k, h) {
+                continue;
+            }
+            let (ne, n, pre) = (rng.below(LL_NESTS.len() as u64) as usize, rng.range(1, 12) as usize, rng.below(3) as usize);
+            push(k, h, ne, n, pre, rng);
+            left -= 1;
+        }
+    }
+    out
+}
+
 /// a program ready for rewriting
 struct Prepared {
     tree: Vec<Node>,
@@ -1500,6 +1729,13 @@ fn main() {
         }
         return;
     }
+    if let Ok(dir) = std::env::var("C02_LL_DUMP") {
+        // debugging aid: the loop-labels family (quick selection) as files <k>.<jump>.<header>.<nesting>.bas
+        for (k, (p, tag)) in loop_label_programs(&mut Rng::from_env(), std::env::var("C02_LL_ALL").is_ok()).into_iter().enumerate() {
+            std::fs::write(format!("{}/{}.{}.bas", dir, k, tag.replace('|', ".")), &p.text).unwrap();
+        }
+        return;
+    }
     let mut rng = Rng::from_env();
     let mut rep = Report::new(
         "C02",
@@ -1514,7 +1750,13 @@ fn main() {
          SELECT selector, CASE items simple / IS / range, PRINT items, array subscripts, DIM bounds) x 16 callee bodies using, at their \
          top level and nested, FOR without / with positive / negative / computed / SINGLE / LONG step, SELECT CASE, calls in their own \
          FOR header, GOSUB, EXIT FUNCTION inside FOR, STATIC, recursion x 8 enclosing contexts (top, FOR, FOR STEP -1, CASE block, \
-         WHILE, FUNCTION called with a pending operand, SUB, ELSE), callee and construct printing what they do; every program text of the repository's tests and fixtures the block segmenter \
+         WHILE, FUNCTION called with a pending operand, SUB, ELSE), callee and construct printing what they do; a directed family \
+         loop-labels: FOR loops whose body holds user labels and jumps (continue-style forward GOTO to a label in front of NEXT, \
+         forward GOTO over part of the body, backward GOTO bounded by a counter, GOTO out of the loop, GOSUB to a routine, GOTO from \
+         an inner loop to the outer continue label) x header (no STEP, STEP 1, STEP 2, LONG counter STEP 3, computed positive step, \
+         STEP -1 only with the label outside the body: the other case is finding C05-a) x 1..12 statements between jump and label x \
+         nesting (plain, jump and label inside an IF / a CASE block of the body, jump from a block IF, loop inside an outer FOR / \
+         WHILE), every statement printing; every program text of the repository's tests and fixtures the block segmenter \
          handles) x every rewrite site x every rule (while-do, until-not, for-step1, wrap-loop, \
          select-if, for-while, if-single-line, if-block): the rewritten text is accepted by the real front end and runs to the same \
          stdout bytes and outcome kind (error code) as the original; for core programs the Lean model's rewrite at the same site is run \
@@ -1556,6 +1798,14 @@ fn main() {
     let header_calls = header_call_programs(&mut Rng(rng.seed() ^ 0x4843_414c_4c53), thorough);
     rep.bump_by("header-calls.programs", header_calls.len() as u64);
     progs.extend(header_calls);
+    // the loop-labels family: a stream and a pair budget of its own, like header-calls
+    let loop_labels = loop_label_programs(&mut Rng(rng.seed() ^ 0x4c4f_4f50_4c42), thorough);
+    rep.bump_by("loop-labels.programs", loop_labels.len() as u64);
+    let mut ll_tag: HashMap<usize, String> = HashMap::new();
+    for (p, tag) in loop_labels {
+        ll_tag.insert(progs.len(), tag);
+        progs.push(p);
+    }
     let mut gens: Vec<Prog> = vec![];
     for k in 0..n_core {
         let (text, _) = generate(&mut rng, &core_opts(k % 3 == 0));
@@ -1587,6 +1837,7 @@ fn main() {
     let mut job_prog: Vec<usize> = vec![];
     let mut pairs = 0usize;
     let mut hc_pairs = 0usize;
+    let mut ll_pairs = 0usize;
     for (pi, (p, pr)) in progs.iter().zip(prepared.iter()).enumerate() {
         match pr {
             Err(why) => rep.bump(&format!("{}.{}", p.origin, why)),
@@ -1597,6 +1848,16 @@ fn main() {
                     rep.bump(&format!("header-calls.position.{}", hdr_calls::pos_name(pos)));
                     rep.bump(&format!("header-calls.callee.{}", hdr_calls::shape_name(shape)));
                     rep.bump(&format!("header-calls.context.{}", hdr_calls::ctx_name(ctx)));
+                    jobs.push((p, pr, pr.sites.len()));
+                    job_prog.push(pi);
+                    continue;
+                }
+                if let Some(tag) = ll_tag.get(&pi) {
+                    ll_pairs += pr.sites.len();
+                    rep.bump("loop-labels.programs-with-sites");
+                    for (what, part) in ["jump", "header", "nesting"].iter().zip(tag.split('|')) {
+                        rep.bump(&format!("loop-labels.{}.{}", what, part));
+                    }
                     jobs.push((p, pr, pr.sites.len()));
                     job_prog.push(pi);
                     continue;
@@ -1683,7 +1944,10 @@ fn main() {
                                 hdr_calls::shape_name(b),
                                 hdr_calls::ctx_name(c)
                             ),
-                            None => String::new(),
+                            None => match ll_tag.get(pi) {
+                                Some(tag) => format!("; loop-labels: {}", tag),
+                                None => String::new(),
+                            },
                         };
                         let (orig_t, new_t, bef, aft, shr) = match &small {
                             Some(fp) => (&fp.text, &fp.new_text, &fp.before, &fp.after, " (shrunk)"),
@@ -1709,8 +1973,9 @@ fn main() {
             }
         }
     }
-    rep.bump_by("pairs", (pairs + hc_pairs) as u64);
+    rep.bump_by("pairs", (pairs + hc_pairs + ll_pairs) as u64);
     rep.bump_by("header-calls.pairs", hc_pairs as u64);
+    rep.bump_by("loop-labels.pairs", ll_pairs as u64);
 
     // the model's rewrite at the same sites
     let reqs: Vec<String> =
